@@ -174,7 +174,11 @@ def fault_sets(tags, rng, tier):
             sets.append([[k, 'raise'], [k + 1, 'raise']])
             sets.append([[k, 'raise'], [k + 1, 'crash']])
         if t == 'write':
+            # the clean-up after a failing write is close-w (k+1), remove (k+2), close-src (k+3)
             sets.append([[k, 'raise'], [k + 2, 'raise']])
+            sets.append([[k, 'raise'], [k + 2, 'crash']])
+            sets.append([[k, 'raise'], [k + 3, 'raise']])
+            sets.append([[k, 'raise'], [k + 1, 'raise'], [k + 2, 'raise']])
     ks = list(range(n + 1))
     rng.shuffle(ks)
     for k in ks[:3 if tier == 'quick' else 6]:
